@@ -60,7 +60,8 @@ func DateFromProto(proto *dtpb.Date) (Date, error) {
 	// yields, down to its precision, anchored like a parsed Date literal.
 	year, month, day := t.Date()
 	switch proto.Precision {
-	case dtpb.Date_DAY:
+	case dtpb.Date_DAY, dtpb.Date_PRECISION_UNSPECIFIED:
+		// (an element built without a precision reads as a full date, as in fhirconv)
 		l = dayLayout
 	case dtpb.Date_MONTH:
 		l = monthLayout
